@@ -212,6 +212,7 @@ func (e *Engine) RenderTo(w io.Writer, name string, context map[string]interface
 func (e *Engine) Load(name string) (*Template, error) {
 	// Only check the cache if caching is enabled
 	if e.environment.cache {
+		vhook("lookup")
 		// Use a quick check under read lock first to avoid contention
 		e.mu.RLock()
 		tmpl, ok := e.templates[name]
@@ -320,6 +321,7 @@ func (e *Engine) Load(name string) (*Template, error) {
 
 	// Only cache if caching is enabled
 	if e.environment.cache {
+		vhook("insert")
 		e.mu.Lock()
 		e.templates[name] = template
 		e.mu.Unlock()
@@ -352,6 +354,7 @@ func (e *Engine) RegisterString(name string, source string) error {
 
 	// Only cache if caching is enabled
 	if e.environment.cache {
+		vhook("insert")
 		e.mu.Lock()
 		e.templates[name] = template
 		e.mu.Unlock()
